@@ -21,6 +21,7 @@ type Gen struct {
 	Human       int // percent of commands run without --json
 	Known       map[string]bool
 	ForcePct    int  // percent of creations whose first id draw is forced to collide
+	RawPct      int  // percent of JSON inputs delivered as a hand-written byte string (padding, escapes, or malformed)
 	Links       bool // file ops also create symlinks (C20)
 	RepeatPct   int  // percent of result attachments that are repeated verbatim
 	lastRes     *Cmd
@@ -116,7 +117,13 @@ func (g *Gen) text(kind string) string {
 		}
 		s += strings.Repeat("x𝔘 line of filler text\n", n)
 	}
-	return fmt.Sprintf("%s %d", s, g.R.Intn(100000))
+	s = fmt.Sprintf("%s %d", s, g.R.Intn(100000))
+	if g.Text != "plain" && g.R.Chance(1, 8) {
+		// surrounding whitespace: kept verbatim by JSON input and plan, trimmed
+		// (titles only) by flags and by set
+		s = g.oneOf(" ", "  ", "\t", "\n", "") + s + g.oneOf(" ", "   ", "\t", " \n", "")
+	}
+	return s
 }
 
 // refs by class
@@ -246,6 +253,9 @@ func (g *Gen) next(m *Model) Step {
 		}
 	}
 	st := g.next2(m)
+	if c := st.Cmd; c != nil && g.RawPct > 0 && (c.Mode == "" || c.Mode == "json") && (c.Op == "new_task" || c.Op == "new_epic" || c.Op == "set" || c.Op == "plan") && g.R.Intn(100) < g.RawPct {
+		g.rawVariant(c)
+	}
 	if c := st.Cmd; c != nil && c.Op == "set" && c.RPath != nil && c.RSum != nil {
 		cc := *c
 		cc.Title, cc.Body, cc.Epic, cc.State, cc.Claim = nil, nil, nil, nil, nil
@@ -671,4 +681,73 @@ func dependsOn(d *PlanDoc, a, b int) bool {
 		return false
 	}
 	return walk(a)
+}
+
+// rawVariant replaces the rendered JSON stdin by a hand-made byte string: the
+// same document with different spelling (still valid: same meaning), or a
+// malformed / multi-value / unknown-key input (must be rejected).
+func (g *Gen) rawVariant(c *Cmd) {
+	var doc []byte
+	if c.Op == "plan" {
+		if c.Plan == nil {
+			return
+		}
+		doc = planJSON(c.Plan)
+	} else {
+		doc = taskInputJSON(*c, func(s string) string { return s })
+		if c.Epic != nil && strings.HasPrefix(*c.Epic, "#") {
+			return // symbolic reference: resolved only at render time
+		}
+	}
+	pad := func(n int) string { return strings.Repeat(" ", n) }
+	second := `{"title":"second value"}`
+	if c.Op == "plan" {
+		second = `{"title":"second plan","tasks":[{"title":"x"}]}`
+	}
+	switch g.R.Intn(9) {
+	case 0: // same meaning: leading/trailing whitespace and newlines
+		s := "\n  " + string(doc) + "\n\n"
+		c.Raw = &s
+	case 1: // two values, the second starting exactly at a typical read boundary
+		for _, b := range []int{512, 1536, 3584, 7680} {
+			if len(doc) <= b {
+				s := string(doc) + pad(b-len(doc)) + second
+				c.Raw, c.RawBad = &s, true
+				return
+			}
+		}
+		s := string(doc) + second
+		c.Raw, c.RawBad = &s, true
+	case 2: // two values at an arbitrary distance
+		s := string(doc) + pad(g.R.Intn(700)) + "\n" + second
+		c.Raw, c.RawBad = &s, true
+	case 3: // trailing junk
+		s := string(doc) + pad(g.R.Intn(600)) + g.oneOf("x", "}", "]", "null", "0", "\"s\"")
+		c.Raw, c.RawBad = &s, true
+	case 4: // truncated
+		if len(doc) > 2 {
+			s := string(doc[:1+g.R.Intn(len(doc)-1)])
+			c.Raw, c.RawBad = &s, true
+		}
+	case 5: // unknown key
+		s := strings.Replace(string(doc), "{", `{"`+g.oneOf("titel", "priority", "Title ", "after", "id")+`":"x",`, 1)
+		c.Raw, c.RawBad = &s, true
+	case 6: // not an object
+		s := g.oneOf("[]", "null", "42", `"just a string"`, "["+string(doc)+"]", "")
+		c.Raw, c.RawBad = &s, true
+	case 7: // wrong value types
+		s := g.oneOf(`{"title":123}`, `{"title":["a"]}`, `{"title":"x","state":null,"body":{}}`, `{"title":true}`)
+		if c.Op == "plan" {
+			s = g.oneOf(`{"title":"x","tasks":"none"}`, `{"title":"x","tasks":[{"title":"a","after":"a"}]}`, `{"title":"x","tasks":[42]}`)
+		}
+		c.Raw, c.RawBad = &s, true
+	case 8: // same meaning, padded to land on a boundary
+		for _, b := range []int{512, 1536} {
+			if len(doc) <= b {
+				s := string(doc) + pad(b-len(doc)) + "\n"
+				c.Raw = &s
+				return
+			}
+		}
+	}
 }
